@@ -235,9 +235,12 @@ func probeSoundness(k *mon.Case, r *rand.Rand, n *node.Node) {
 	v := newView(n)
 	tip := n.Tip().Header.Height
 	nc := v.nextChange()
-	cand := map[uint32]bool{v.certified: true, v.certified + 1: true, v.precommitted: true, v.precommitted + 1: true, (v.certified + v.precommitted) / 2: true}
+	cand := map[uint32]bool{1: true, v.certified: true, v.certified + 1: true, v.precommitted: true, v.precommitted + 1: true, (v.certified + v.precommitted) / 2: true}
 	if nc != 0 {
 		cand[nc-1], cand[nc], cand[nc+1] = true, true, true
+	}
+	if v.certified > 0 {
+		cand[v.certified-1] = true
 	}
 	var hs []uint32
 	for h := range cand {
